@@ -39,7 +39,8 @@ func knownClass(class string) bool { return !replaying && rec.KnownClass(class) 
 // JSON: random cases
 
 var jsonPayloads = []string{"#", "x", "}", "]", ",", ":", "\"", "é", "漢", "😀", "\x01", "'", "tru", "nul ", "-", "0123", "\x7f", "Ａ",
-	"\xff", "\x80", "\xe3\x81", "\xc3#"} // ill-formed UTF-8 as the offending byte
+	"\xff", "\x80", "\xe3\x81", "\xc3#", // ill-formed UTF-8 as the offending byte
+	"\ufeff", "\u00a0", "\u200b"} // a byte order mark / no-break / zero-width space outside a string
 var inStringPayloads = []string{"\n", "\r", "\r\n", "\x01", "\t", "\x1f",
 	"\xc3\x01", "\xe3\x81\x1f", "\xff\n", "\x80\x01", "\xffx\x01"} // ill-formed bytes directly (or one character) before the control character
 
@@ -177,6 +178,17 @@ func genJSONCase(t *rapid.T) jsonCase {
 		c.Tail = "none"
 	}
 	c.Fault = genFault(t, c.docBytes())
+	if rapid.IntRange(0, 6).Draw(t, "prefixed") == 0 {
+		pre := rapid.SampledFrom(jsonPrefixes).Draw(t, "prefix")
+		if rapid.IntRange(0, 3).Draw(t, "double") == 0 {
+			pre += rapid.SampledFrom(jsonPrefixes).Draw(t, "prefix2")
+		}
+		c.Prefix = []byte(pre)
+		c.PrefixAt = rapid.SampledFrom([]string{"start", "start", "space", "between"}).Draw(t, "prefixat")
+		if rapid.Bool().Draw(t, "onlyprefix") {
+			c.Fault = fault{Kind: "none"} // the document itself is valid
+		}
+	}
 	return c
 }
 
@@ -596,6 +608,46 @@ func TestC17(t *testing.T) {
 		}
 	}
 	rec.Exhaustive("json: every truncation, deleted byte and illegal byte at every token boundary of a small two-document stream x LF/CRLF/CR x pipe/file", complete)
+
+	// (E3) bytes a reader might skip or reject at the very start, after
+	// leading white space or between two documents, before a valid stream
+	// and before a stream with a later fault; U+FEFF inside a string (valid)
+	complete = true
+	faultyDoc := strings.Replace(smallDoc, "true", "tru", 1)
+	for _, eol := range eols {
+		for bi, base := range []string{smallDoc, faultyDoc, strings.Replace(faultyDoc, "漢字", "漢\ufeff字", 1)} {
+			doc := withEOL(base, eol)
+			first := strings.Index(doc, "{") // start of the second document
+			nl := withEOL("\n", eol)
+			for pi, pre := range append([]string{""}, jsonPrefixes...) {
+				if (pre == "") != (bi == 2) {
+					continue // the third base carries its mark inside a string and gets no prefix
+				}
+				for ai, data := range []string{pre + doc, " " + nl + " " + pre + doc, doc[:first] + pre + doc[first:]} {
+					if pre == "" && ai > 0 {
+						continue
+					}
+					for mi, m := range []struct {
+						mode  string
+						flags []string
+					}{{"pipe", nil}, {"pipe", []string{"--stream"}}, {"pipe", []string{"--slurp"}}, {"inputs", nil}, {"file", nil}, {"file", []string{"--stream"}},
+						{"stdinfile", nil}, {"slurpfile", nil}, {"argjson", nil}, {"import", nil}} {
+						idx++
+						if !rec.Mine(idx) || tooMany() {
+							continue
+						}
+						rec.Eval()
+						c := rawCase{Mode: m.mode, Flags: m.flags, Data: []byte(data)}
+						if msg := judgeJSON(m.mode, m.flags, c.Data, noteJSON(fmt.Sprintf("prefix/%s/%d/%d/%d/%d", eol, bi, pi, ai, mi), m.mode, m.flags, c.Data)); msg != "" {
+							complete = false
+							rec.Direct("json-raw", c, "%s", msg)
+						}
+					}
+				}
+			}
+		}
+	}
+	rec.Exhaustive("json: 6 skippable / rejectable byte prefixes (BOM, FE FF, FF FE, NUL, NBSP, ZWSP) at the start, after white space and between two documents of a valid and of a faulty small stream, and U+FEFF inside a string x LF/CRLF/CR x 10 transports", complete)
 
 	// (E2) the offending byte swept over the offsets where the command's
 	// windows change (file: skip loop at 12288 + k*16384 and 20480 + k*16384;
